@@ -449,15 +449,18 @@ where
             .collect::<Vec<_>>();
 
         let mut invalidated = 0u64;
+        let mut invalidated_count = 0u64;
 
         keys_to_invalidate.into_iter().for_each(|k| {
             if let Some(mut entry) = cache.remove(&k) {
                 let weight = entry.policy_weight();
                 deques.unlink_ao(&mut entry);
                 Deques::unlink_wo(&mut deques.write_order, &mut entry);
-                invalidated = invalidated.saturating_sub(weight as u64);
+                invalidated = invalidated.saturating_add(weight as u64);
+                invalidated_count += 1;
             }
         });
+        self.entry_count -= invalidated_count;
         self.saturating_sub_from_total_weight(invalidated);
     }
 
